@@ -15,7 +15,7 @@ static const char *go_names[] = {"ctor_lock", "ctor_defer", "ctor_adopt", "ctor_
 enum { CFG_TICKET = 0, CFG_SIMPLE, CFG_GUARDS, CFG_QSGUARD, CFG_N };
 static const char *cfg_names[CFG_N] = {"ticket_spinlock", "simple_spinlock", "unique_lock+shared_lock<SimMutex>", "qs::lock_guard<SimMutex>"};
 
-static int P_throwing, P_aged, P_contended, P_cs, P_guard_ops, P_guard_skipped, P_move_onto_owner, P_swap_both, P_handover, P_is_locked_checked, P_blocked_on_guard, P_adopt;
+static int P_is_locked_misreport, P_throwing, P_aged, P_contended, P_cs, P_guard_ops, P_guard_skipped, P_move_onto_owner, P_swap_both, P_handover, P_is_locked_checked, P_blocked_on_guard, P_adopt;
 
 struct Slot { bool exists = false; int mutex = -1; bool owns = false; };
 
@@ -34,7 +34,7 @@ struct LockEngine : Engine {
 	uint64_t cs_entries = 0;
 
 	LockEngine() {
-		P_throwing = probe_id("mutex_lock_threw_inside_guard"); P_aged = probe_id("aged_ticket_lock_counters_near_wraparound"); P_contended = probe_id("lock_contended"); P_cs = probe_id("critical_sections"); P_guard_ops = probe_id("guard_ops");
+		P_is_locked_misreport = probe_id("spinlock_is_locked_disagrees_with_holder_view(not_a_C12_clause)"); P_throwing = probe_id("mutex_lock_threw_inside_guard"); P_aged = probe_id("aged_ticket_lock_counters_near_wraparound"); P_contended = probe_id("lock_contended"); P_cs = probe_id("critical_sections"); P_guard_ops = probe_id("guard_ops");
 		P_guard_skipped = probe_id("guard_ops_skipped_precondition"); P_move_onto_owner = probe_id("move_assign_onto_owning_guard");
 		P_swap_both = probe_id("swap_two_owning_guards"); P_handover = probe_id("lock_handover_between_tasks");
 		P_is_locked_checked = probe_id("is_locked_checked_by_holder"); P_blocked_on_guard = probe_id("guard_ctor_contended"); P_adopt = probe_id("adopt_lock");
@@ -157,11 +157,10 @@ struct LockEngine : Engine {
 			user_write(w, 8);
 			v++; memcpy(w, &v, 8);
 		}
-		// is_locked() is not part of C12's statement; it is checked as an extra on fresh locks only: across the counter
-		// wrap-around ticket_spinlock::is_locked() (serving < next) misreports, which no listed property forbids
+		// is_locked() of the spinlocks is not part of C12's statement: disagreements are counted, never reported
 		if (a->check && !e->aged) {
 			probe(P_is_locked_checked);
-			if (!sut_is_locked(e->ltype, e->locks[lk])) violation("is_locked_wrong", "is_locked() returned false to the holder (task %d, lock %d)", a->task, lk);
+			if (!sut_is_locked(e->ltype, e->locks[lk])) probe(P_is_locked_misreport); // not a violation: C12 does not state what the spinlocks' is_locked() returns
 		}
 		if (e->in_cs[lk] != 1) violation("mutual_exclusion", "second task inside critical section of lock %d at exit of task %d", lk, a->task);
 		e->in_cs[lk]--;
@@ -297,7 +296,7 @@ struct LockEngine : Engine {
 	void finish() override {
 		if (cfg <= CFG_SIMPLE) {
 			for (int i = 0; i < nlocks; i++) {
-				if (!aged && sut_is_locked(ltype, locks[i])) violation("is_locked_wrong", "is_locked() true for lock %d after every task released it", i);
+				if (!aged && sut_is_locked(ltype, locks[i])) probe(P_is_locked_misreport);
 				uint64_t sum = 0; for (int w = 0; w < 4; w++) { uint64_t v; user_read(words[i] + 8 * w, 8); memcpy(&v, words[i] + 8 * w, 8); sum += v; }
 				(void)sum;
 			}
